@@ -32,6 +32,12 @@ type vfStmt struct {
 	movesKey    bool     // update that changes key values of selected rows
 	readsTarget bool     // insert query whose source reads the target table
 	q           *vfNode  // source (insertq) or target query (update, delete)
+	refuse      string   // the statement should be refused with an error containing this text (query is not updateable)
+	// the optimizer may simplify such a query to an updateable one (a restriction that selects nothing, a union
+	// with an empty operand): then the statement may succeed, but only with this table content afterwards
+	// (nil: no meaningful result exists, it must be refused)
+	ifAccepted []vfRow
+	acceptable bool
 }
 
 func vfKeyDups(t *vfTable, rows []vfRow) bool {
@@ -191,6 +197,93 @@ func vfSelected(t *vfTable, rel *vfRel) map[string]vfRow {
 		sel[vfTupleKey(row, t.keys[0])] = row
 	}
 	return sel
+}
+
+// notUpdateable: an update or delete whose query is not a single table seen through where/extend/rename or a
+// project that keeps a key: a project that drops every key, a summarize, a join/union with another table.
+// It must be refused ("not updateable") and change nothing.
+func (g *vfC24Gen) notUpdateable(t *vfTable) *vfStmt {
+	r := g.r
+	qg := vfNewGen(r, g.d)
+	n := qg.tableNode(t)
+	if r.IntN(2) == 0 {
+		n = qg.where(n)
+	}
+	var bad *vfNode
+	switch r.IntN(4) {
+	case 0, 1: // project without any key
+		for _, k := range t.keys {
+			if len(k) == 0 {
+				return nil // key(): every projection keeps it
+			}
+		}
+		var keep []string
+		for _, c := range n.out {
+			if r.IntN(2) == 0 {
+				keep = append(keep, c.name)
+			}
+		}
+		for _, k := range t.keys { // drop one column of every key that is still complete
+			all := true
+			for _, c := range k {
+				all = all && slices.Contains(keep, c)
+			}
+			if all {
+				drop := k[r.IntN(len(k))]
+				keep = slices.DeleteFunc(keep, func(c string) bool { return c == drop })
+			}
+		}
+		if len(keep) == 0 {
+			return nil
+		}
+		out := make([]vfCol, len(keep))
+		for i, c := range keep {
+			out[i], _ = vfFindCol(n.out, c)
+		}
+		bad = qg.finish(&vfNode{op: "project", src: n, cols: keep, out: out})
+	case 2:
+		bad = qg.summarize(n)
+	default:
+		// union of two restrictions of the same table
+		right := qg.where(qg.reeval(n.clone()))
+		bad = qg.tryFinish(&vfNode{op: "union", src: n, src2: right, out: n.out})
+	}
+	if bad == nil {
+		return nil
+	}
+	st := &vfStmt{target: t, q: bad, refuse: "not updateable", newRows: t.rows}
+	relBad, openV, _ := vfModelResult(g.d, bad, false)
+	_, openR, _ := vfModelResult(g.d, bad, true)
+	relSrc, openS, _ := vfModelResult(g.d, n, false)
+	st.open = openV+openR+openS > 0
+	settable := vfScalarCols(bad.out)
+	// (update only through a summarize: an update through a project that the optimizer accepts after all, e.g.
+	// because the key is fixed by the where, runs into the recorded update-through-project defect)
+	isDelete := r.IntN(2) == 0 || len(settable) == 0 || bad.op != "summarize"
+	if isDelete {
+		st.kind, st.text = "delete", "delete "+bad.text()
+	} else {
+		c := vfPick(r, settable)
+		st.kind, st.text = "update", "update "+bad.text()+" set "+c.name+" = "+c.name
+	}
+	// what an accepted statement may do at most: nothing when the query selects nothing; for a project or a
+	// union of restrictions of the table itself, act on every table row behind the selected rows
+	switch {
+	case len(relBad.rows) == 0 || !isDelete:
+		st.acceptable, st.ifAccepted = true, t.rows
+	case bad.op == "project" || bad.op == "union":
+		sel := vfSelected(t, relSrc)
+		if bad.op == "union" {
+			sel = vfSelected(t, relBad)
+		}
+		st.acceptable = true
+		for _, row := range t.rows {
+			if _, ok := sel[vfTupleKey(row, t.keys[0])]; !ok {
+				st.ifAccepted = append(st.ifAccepted, row)
+			}
+		}
+	}
+	return st
 }
 
 func (g *vfC24Gen) delete(t *vfTable) *vfStmt {
@@ -378,6 +471,8 @@ func vfC24Case(rep *vk.Report, d *vfDB, dbi, si int, th *Thread) {
 			}
 		}()
 		switch x := r.IntN(10); {
+		case si%12 == 11:
+			st = g.notUpdateable(t)
 		case x < 3:
 			st = g.insertRecord(t)
 		case x < 5:
@@ -414,7 +509,7 @@ func vfC24Case(rep *vk.Report, d *vfDB, dbi, si int, th *Thread) {
 		tb.persisted = 0
 	}
 	before := d.describe()
-	changed := st.count > 0 || st.mustFail
+	changed := st.count > 0 || st.mustFail || st.refuse != ""
 	rep.Eval(vk.Hash64(d.dbHashNow(), st.text), changed)
 	rep.Count("stmt_"+st.kind, 1)
 	key := fmt.Sprintf("%s  db=%d/%d/%d stmt=%d", st.text, vk.Seed(), vk.Shard(), dbi, si)
@@ -430,6 +525,13 @@ func vfC24Case(rep *vk.Report, d *vfDB, dbi, si int, th *Thread) {
 		rep.Seen("errors", vk.Trunc(vfNormMsg(msg), 50))
 		lbl := vfEngineFailLabel(msg, stack)
 		switch {
+		case st.refuse != "":
+			rep.Count("not_updateable_refused", 1)
+			if !strings.Contains(msg, st.refuse) && lbl == "" {
+				w := wit("refused, but not as a query that is not updateable", st.refuse, msg)
+				w.Stack = vk.Trunc(stack, 2500)
+				rep.Violate("C24/wrong-error/not-updateable/"+st.kind, key, w)
+			}
 		case st.kind == "insertq" && lbl != "":
 			// the source query itself failed inside the query engine (C22's subject)
 			w := wit("the source query of the insert failed in the query engine", nil, msg)
@@ -463,6 +565,22 @@ func vfC24Case(rep *vk.Report, d *vfDB, dbi, si int, th *Thread) {
 		return
 	}
 	d.db.CommitMerge(ut)
+	if st.refuse != "" {
+		rep.Count("not_updateable_accepted_after_simplification", 1)
+		if !st.acceptable {
+			rep.Violate("C24/statement-on-non-updateable-query-accepted/"+st.kind, key,
+				wit("the query is not updateable (summarize with rows) but the statement succeeded", "refusal: "+st.refuse, got))
+			vfC24Resync(d, st.target, th)
+			return
+		}
+		// accepted (the optimizer may have simplified the query): it may only have acted on all rows behind the selection
+		if !vfC24Compare(rep, d, st, st.ifAccepted, key, "after a statement on a query that is not updateable as written (no key kept by the project / union)", wit, th) {
+			vfC24Resync(d, st.target, th)
+		} else {
+			st.target.rows = st.ifAccepted
+		}
+		return
+	}
 	if st.mustFail {
 		cl := "C24/key-violation-accepted/" + st.kind
 		if lbl := vfC24Diagnose2(st, nil, nil, got == 0); lbl != "" {
@@ -527,6 +645,8 @@ func vfC24Compare(rep *vk.Report, d *vfDB, st *vfStmt, want []vfRow, key, note s
 		cl := "C24/table-differs/" + st.kind
 		if strings.HasPrefix(note, "after refused") {
 			cl = "C24/refused-statement-changed-table/" + st.kind
+		} else if st.refuse != "" {
+			cl = "C24/statement-on-non-updateable-query-changed-wrong-rows/" + st.kind
 		} else if lbl := vfC24Diagnose2(st, want, res.rows, len(vfDiffCount(st.target.rows, res.rows, cols)) == 0); lbl != "" {
 			cl += "/" + lbl
 		}
